@@ -1,5 +1,7 @@
 import Pymc.Proofs.RefineCor
 import Pymc.Proofs.RefineChunk
+import Pymc.Proofs.StatsConv
+import Pymc.Generated.Consts
 /-!
 # C05 — client ∘ wire ∘ server is a plain in-memory map with expiry and cas versions
 
@@ -438,3 +440,111 @@ theorem C05_set_many_faithful_server_all_stored (cfg : Cfg) (s : St) (items : Li
         simp only [List.zip_cons_cons, List.filterMap_cons, if_true]
         exact ih reps (fun x hx => hreps x (by simp [hx]))
 end Client
+
+/-! ## 9. `stats()`: the type conversion of the reply (Pymc/Model/Stats.lean)
+
+`Client.stats` returns the dict of `_fetch_cmd` after `STAT_TYPES.get(key, int)` has been applied to every value, failures ignored.
+The statements below are about `Stats.convert` / `Stats.statsConvert`, the transliteration of that loop and of the six converters
+(`int`, `bytes`, `float`, `_parse_float`, `_parse_bool_int`, `_parse_bool_string_is_yes`, `_parse_hex`).  `lim` is the interpreter's limit
+on decimal digits (`sys.get_int_max_str_digits()`, default 4300, `0` = none).  `float` itself is not modelled (the model hands the
+harness the exact argument).  The table `statTypes` is tied to the source by the translator (`C05_stats_table_tie`). -/
+namespace Stats
+open Bytes Wire Exchange
+
+/-- the table in the model is the table in the source (re-extracted on every run) -/
+theorem C05_stats_table_tie : Generated.statTypes = statTypes.map (fun kc => (kc.1, kc.2.name)) := by decide +kernel
+
+/-- a key outside the table — in particular every `str` key — is converted with `int` -/
+theorem C05_stats_unknown_key_is_int (b : Bytes) (h : ∀ kc ∈ statTypes, kc.1 ≠ b) :
+    converterOf (.bytes b) = .int ∧ ∀ s, converterOf (.str s) = .int := by
+  refine ⟨?_, fun _ => rfl⟩
+  have : statTypes.find? (·.1 = b) = none := by
+    rw [List.find?_eq_none]; intro kc hkc; simpa using h kc hkc
+  show (Option.map (·.2) (statTypes.find? (·.1 = b))).getD Conv.int = Conv.int
+  rw [this]; rfl
+
+/-- **Counters.**  A counter the server renders in decimal comes back as that integer — for every `n` within the digit limit -/
+theorem C05_stats_counter_roundtrip (lim n : Nat) (h : lim = 0 ∨ (natDec n).length ≤ lim) :
+    convert lim .int (natDec n) = .int n := by
+  simp [convert, pyIntWs_natDec lim n h]
+
+/-- every 64-bit counter under the default limit -/
+theorem C05_stats_u64_counter (n : Nat) (hn : n < 2 ^ 64) : convert 4300 .int (natDec n) = .int n := by
+  apply C05_stats_counter_roundtrip
+  right
+  have := natDec_length_le 19 n (by omega)
+  omega
+
+/-- **Boolean settings** reported as numbers: `number != 0` -/
+theorem C05_stats_bool_setting (lim n : Nat) (h : lim = 0 ∨ (natDec n).length ≤ lim) :
+    convert lim .boolInt (natDec n) = .bool (n != 0) := by
+  simp only [convert, pyIntWs_natDec lim n h]
+  congr 1
+  cases n <;> simp <;> omega
+
+/-- **Textual statistics** (`version`, `inter`, `stat_key_prefix`) are the bytes the server sent; `auth_enabled_sasl` is `value == b"yes"` -/
+theorem C05_stats_text_kept (lim : Nat) (v : Bytes) :
+    convert lim .bytes v = .raw v ∧ convert lim .isYes v = .bool (v == yes) ∧
+    (convert lim .isYes v = .bool true ↔ v = yes) := by
+  refine ⟨rfl, rfl, ?_⟩
+  simp [convert]
+
+/-- **umask** is read as octal: the octal rendering of `n` comes back as `n` (no digit limit applies) -/
+theorem C05_stats_umask_roundtrip (lim n : Nat) : convert lim .octal (octDec n) = .int n := by
+  have hmem := octDec_mem n
+  have hsp : strip (octDec n) = octDec n := strip_eq_self _ fun x hx => by
+    have := (isOctDigit_iff x).1 (hmem x hx)
+    simp only [isSpace, Bool.or_eq_false_iff, Bool.and_eq_false_iff, decide_eq_false_iff_not]
+    refine ⟨?_, ?_⟩
+    · intro he; subst he; revert this; decide
+    · right; simp [UInt8.le_iff_toNat_le]; omega
+  have hbody : octBody (octDec n) = some n := by
+    have hd : octDigits (octDec n) false none = some n := by
+      rw [octDigits_digits _ _ hmem, if_neg (octDec_ne_nil n)]
+      have hv := octVal_octDec n
+      unfold octVal at hv
+      simp only [Option.getD_none]; rw [hv]
+    have no111 : (111 : UInt8) ∉ octDec n := fun hx => by have := hmem _ hx; revert this; decide
+    have no79 : (79 : UInt8) ∉ octDec n := fun hx => by have := hmem _ hx; revert this; decide
+    unfold octBody
+    split
+    · rename_i heq; rw [heq] at no111; simp at no111
+    · rename_i heq; rw [heq] at no79; simp at no79
+    · rename_i heq; rw [heq] at no111; simp at no111
+    · rename_i heq; rw [heq] at no79; simp at no79
+    · exact hd
+  obtain ⟨d, r, hdr, hd⟩ := octDec_head n
+  have hd' := (isOctDigit_iff d).1 hd
+  have h1 : d ≠ 45 := by rintro rfl; revert hd'; decide
+  have h2 : d ≠ 43 := by rintro rfl; revert hd'; decide
+  have : pyOct (octDec n) = some (n : Int) := by
+    unfold pyOct
+    rw [hsp]
+    split
+    · rename_i heq; rw [hdr] at heq; cases heq; exact absurd rfl h1
+    · rename_i heq; rw [hdr] at heq; cases heq; exact absurd rfl h2
+    · rw [hbody]; rfl
+  simp [convert, this]
+
+/-- **Best effort.**  A value the converter rejects is returned as it was -/
+theorem C05_stats_unconvertible_kept (lim : Nat) (v : Bytes) :
+    (pyIntWs lim v = none → convert lim .int v = .raw v ∧ convert lim .boolInt v = .raw v) ∧
+    (pyOct v = none → convert lim .octal v = .raw v) := by
+  refine ⟨fun h => ?_, fun h => ?_⟩
+  · simp [convert, h]
+  · simp [convert, h]
+
+/-- **The dict keeps its keys and their order**; every value is converted on its own, by the converter of its own key -/
+theorem C05_stats_keys_preserved (lim : Nat) (d : List (Key.K × Bytes)) :
+    (statsConvert lim d).map (·.1) = d.map (·.1) ∧
+    ∀ k v, (k, v) ∈ d → (k, convert lim (converterOf k) v) ∈ statsConvert lim d := by
+  refine ⟨by simp [statsConvert, Function.comp_def], fun k v h => ?_⟩
+  exact List.mem_map.2 ⟨(k, v), h, rfl⟩
+
+-- non-vacuity / samples (tests, labelled as such)
+example : converterOf (.bytes (ofString "pid")) = .int ∧ converterOf (.bytes (ofString "umask")) = .octal := by decide +kernel
+example : convert 4300 .octal (ofString "022") = .int 18 ∧ convert 4300 .int (ofString " 1_000\n") = .int 1000 ∧
+    convert 4300 .boolInt (ofString "2") = .bool true ∧ convert 4300 .int (ofString "1.6.21") = .raw (ofString "1.6.21") := by decide +kernel
+example : pyIntWs 3 (ofString "1234") = none ∧ pyIntWs 0 (ofString "1234") = some 1234 ∧ pyOct (ofString "0o_17") = some 15 ∧
+    pyOct (ofString "8") = none := by decide +kernel
+end Stats
